@@ -904,6 +904,14 @@ V("c04-reduction-layer-delegates-to-lowered-top", "C04", "R04.9", "dask_array/re
   "    def _simplify_up(self, parent, dependents):\n        \"\"\"Allow slice operations to push through Reduction.\"\"\"", "    def _layer(self):\n        return self.lower_completely()._layer()\n\n    def _simplify_up(self, parent, dependents):\n        \"\"\"Allow slice operations to push through Reduction.\"\"\"", expect="Reduction")
 V("c04-twin-layer-calls-super", "C04", "-", "dask_array/reductions/_reduction.py",
   "    def _simplify_up(self, parent, dependents):\n        \"\"\"Allow slice operations to push through Reduction.\"\"\"", "    def _layer(self):\n        return super()._layer()\n\n    def _simplify_up(self, parent, dependents):\n        \"\"\"Allow slice operations to push through Reduction.\"\"\"", twin=True)
+V("c05-blockwise-layer-without-unlowered-guard", "C05", "R05.9", "dask_array/_blockwise.py",
+  "    def _layer(self):\n        graph = self._graph_if_unlowered()\n        if graph is not None:\n            return graph\n        arginds =", "    def _layer(self):\n        arginds =", expect="Blockwise._layer")
+V("c05-stack-layer-without-unlowered-guard", "C05", "R05.9", "dask_array/stacking/_stack.py",
+  "        graph = self._graph_if_unlowered()\n        if graph is not None:\n            return graph\n        keys = list(product(", "        keys = list(product(", expect="Stack._layer")
+V("c05-unlowered-guard-never-materializes", "C05", "R05.9", "dask_array/_expr.py",
+  "        try:\n            return ArrayExpr._layer(self)\n        except NotImplementedError:\n            # materializing changed nothing after all: the node is as lowered\n            # as it gets (e.g. unknown chunk sizes never unify to a fixpoint)\n            return None\n", "        return None\n", expect="_graph_if_unlowered")
+V("c05-twin-unlowered-guard-walrus", "C05", "-", "dask_array/stacking/_stack.py",
+  "        graph = self._graph_if_unlowered()\n        if graph is not None:\n            return graph\n        keys = list(product(", "        if (whole := self._graph_if_unlowered()) is not None:\n            return whole\n        keys = list(product(", twin=True)
 V("c02-detector-uses-forward-permutation", "C02", "R02.6", "dask_array/_blockwise.py",
   "        inv = expr._inverse_axes\n        dep_mapping = tuple(parent_mapping[inv[i]] for i in range(len(inv)))", "        dep_mapping = tuple(parent_mapping[ax] for ax in expr.axes)", expect="_symbolic_mapping")
 V("c02-twin-detector-local-rename", "C02", "-", "dask_array/_blockwise.py",
